@@ -6,6 +6,7 @@ correspondence check.
 Import-free apart from the pool model (linked into the `dpmodel` driver).
 -/
 import DeadpoolVerif.Model.Managed
+import DeadpoolVerif.Model.Solo
 
 namespace DeadpoolVerif
 namespace RR
@@ -73,46 +74,41 @@ def Pool.conn (p : Pool) (id : Nat) : Conn :=
 def Pool.setConn (p : Pool) (id : Nat) (c : Conn) : Pool :=
   { p with conns := (id, c) :: p.conns.filter (·.1 != id) }
 
-/-- run get operation `i` alone: internal steps run, `create` succeeds, each `Manager::recycle`
-consumes the next scripted reply (a missing one means the right echo) -/
-def soloGet (p : Pool) (i : Nat) (replies : List Reply) : Nat → Pool × List (Nat × Nat)
-  | 0 => (p, [])
-  | fuel + 1 =>
-    match p.pool.ops[i]? with
-    | some (.get _ (.recycling k o _)) =>
-      if k = p.pool.cfg.pre.length then
-        let r := replies.headD (.echo (some p.mgr.pingNumber))
-        let n := p.mgr.pingNumber
-        let (m', c', ok) := recycle p.mgr (p.conn o.id) r
-        match step p.pool (.step i (if ok then .ok else .err)) with
-        | some s' =>
-          let (p', pings) := soloGet ({ p with pool := s', mgr := m' }.setConn o.id c') i replies.tail fuel
-          (p', (o.id, n) :: pings)
-        | none => (p, [])
-      else
-        match step p.pool (.step i .ok) with
-        | some s' => soloGet { p with pool := s' } i replies fuel
-        | none => (p, [])
-    | some (.get _ (.creating _)) | some (.get _ (.postCreate ..)) =>
-      match step p.pool (.step i .ok) with
-      | some s' => soloGet { p with pool := s' } i replies fuel
-      | none => (p, [])
-    | some .done | none => (p, [])
-    | some _ =>
-      match step p.pool (.step i .run) with
-      | some s' => soloGet { p with pool := s' } i replies fuel
-      | none => (p, [])
+/-- state of the environment during one get(): the manager, the server-side view of the
+connections, the scripted replies still to come, the pings sent so far (connection, value) -/
+structure EnvSt where
+  mgr : Mgr
+  conns : List (Nat × Conn)
+  replies : List Reply
+  pings : List (Nat × Nat) := []
+deriving Inhabited
+
+def connOf (conns : List (Nat × Conn)) (id : Nat) : Conn :=
+  match conns.find? (·.1 == id) with
+  | some (_, c) => c
+  | none => {}
+
+/-- the environment of the sequential driver: internal steps run, `create` and the hooks
+succeed, each `Manager::recycle` consumes the next scripted reply (a missing one means the right
+echo) and answers what `recycle` decides -/
+def env : Solo.Env EnvSt := fun e s i =>
+  match Solo.atRecycle s i with
+  | some o =>
+    let r := e.replies.headD (.echo (some e.mgr.pingNumber))
+    let (m', c', ok) := recycle e.mgr (connOf e.conns o.id) r
+    some (if ok then .ok else .err,
+          { mgr := m', conns := (o.id, c') :: e.conns.filter (·.1 != o.id), replies := e.replies.tail,
+            pings := e.pings ++ [(o.id, e.mgr.pingNumber)] })
+  | none => (Solo.defaultOutcome (fun _ => true) s i).map fun oc => (oc, e)
+
+/-- run get operation `i` (already started) alone -/
+def soloGet (p : Pool) (i : Nat) (replies : List Reply) (fuel : Nat) : Pool × List (Nat × Nat) :=
+  let r := Solo.soloWith env { mgr := p.mgr, conns := p.conns, replies := replies } p.pool i fuel
+  ({ pool := r.2, mgr := r.1.mgr, conns := r.1.conns }, r.1.pings)
 
 /-- run a non-get operation to its end -/
-def soloOther (s : State) (i : Nat) : Nat → State
-  | 0 => s
-  | fuel + 1 =>
-    match s.ops[i]? with
-    | some .done | none => s
-    | some _ =>
-      match step s (.step i .run) with
-      | some s' => soloOther s' i fuel
-      | none => s
+def soloOther (s : State) (i : Nat) (fuel : Nat) : State :=
+  (Solo.soloWith (fun (_ : Unit) s i => (Solo.defaultOutcome (fun _ => true) s i).map fun oc => (oc, ())) () s i fuel).2
 
 end RR
 end DeadpoolVerif
